@@ -15,6 +15,7 @@ import Shutter.Drive.EonPk
 import Shutter.Drive.GnosisSlot
 import Shutter.Drive.ServiceTrigger
 import Shutter.Drive.Validate
+import Shutter.Drive.Net
 
 open Shutter
 
@@ -30,6 +31,7 @@ def dispatch (st : DState) (line : String) : DState × String :=
   | "GS" :: rest => (st, Drive.GnosisSlot.step rest)
   | "ST" :: rest => (st, Drive.ServiceTrigger.step rest)
   | "VAL" :: rest => (st, Drive.Validate.step rest)
+  | "NET" :: rest => (st, Drive.Net.step rest)
   | "KG" :: rest => (st, Drive.EpochKG.step rest)
   | "SG" :: rest => (st, Drive.Signers.step rest)
   | "API" :: rest => (st, Drive.Api.step rest)
